@@ -279,3 +279,7 @@ def st_state_history(hiN):
 
 
 FACETS.append(Facet('np/state-histories', f_state_history, strategy=lambda t: st_state_history(4), examples={'quick': 800, 'thorough': 40000}, shards={'quick': 2, 'thorough': 8}))
+
+
+from checks import large as _large
+FACETS.append(Facet('np/large-N-sample', _large.f_sample_large, strategy=lambda t: _large.st_big(), examples={'quick': 30, 'thorough': 1000}, shards={'quick': 1, 'thorough': 4}))
